@@ -9,6 +9,7 @@
   instance.  (The generated-code and optimizer halves are C01 and C02.)
 -/
 import PestModel.Props.C03
+import PestModel.Props.C02
 import PestModel.Props.Tables
 
 namespace Pest
